@@ -97,7 +97,7 @@ pub fn run(ctx: &Ctx) -> i32 {
          three re-read policies and on disk) must give exactly one error on the directive's line, leave all other diagnostics as with the directive blanked, and terminate. distinct_nontrivial = distinct include trees with >= 2 files compared",
     );
     rep.assume("a label or statement may not be cut in the middle of a line; cuts are at line boundaries only");
-    let per_shard = ctx.tier.pick(10, 500);
+    let per_shard = ctx.tier.pick(30, 500);
     let acc = run_sharded(ctx, |shard| {
         let mut acc = Acc::new();
         for k in 0..per_shard {
